@@ -1206,6 +1206,13 @@ class Evaluator:
             if units and units[-1] == args[0][1][-1]:
                 return args[0][2]           # get::<U>(new::<U>(x)) = x
         target = self.prog.fn(name) or self.prog.fn(declared)
+        if target is not None and target.kind == "Closure" and declared.startswith("core::ops::function::Fn") and len(args) == 2:
+            # `f(a, b)` on a closure value is Fn::call(&f, (a, b)): the closure body takes the arguments untupled
+            packed = args[1]
+            if packed[0] == "tuple":
+                args = [args[0]] + list(packed[1])
+            elif packed == UNIT:
+                args = [args[0]]
         if target is not None and target.path not in self.opaque_local and not target.is_coroutine:
             return self.eval_fn(target, args, depth + 1)
         self.effects.append((name, tuple(args)))
